@@ -98,20 +98,23 @@ theorem resubscribe_keeps_record (w : World) (k : Nat) (hb : NoDupTopics w.broke
 /-! ### (B) convergence -/
 
 /-- the replay invariant (*): in every reachable world in which the goroutine is not blocked for
-    ever and no `Resubscribe` is waiting in the task queue, replaying what is still pending (retry
-    queue, then task queue) on top of the broker's current table gives the net effect of everything
-    the application asked for -/
+    ever, the reconnect loop has not exited (after Disconnect) and no `Resubscribe` is waiting in
+    the task queue, replaying what is still pending (retry queue, then task queue) on top of the
+    broker's current table gives the net effect of everything the application asked for.
+    (`phase ≠ .exited` is needed in the refined model: after Disconnect an accepted CONNACK with a
+    lost session no longer re-subscribes — see `replay_fails_after_exit`.) -/
 theorem replay_invariant (s : Script) (hst : (exec s).stuck = false)
-    (hr : Task.resubscribe ∉ (exec s).taskQ) :
+    (hex : (exec s).phase ≠ .exited) (hr : Task.resubscribe ∉ (exec s).taskQ) :
     netEffect (subCallsOf (exec s).accepted) =
       (subCallsOf (queuedReqs (exec s).taskQ)).foldl netStep
         ((pendingCalls (exec s).retryQ).foldl netStep (toMap (exec s).broker.subs)) := by
   have g := (exec_all s).1 hst
   obtain ⟨pr, a, b⟩ := g.procd
   have hsup : RSup (Pm (exec s)) (Em (exec s)) := by
-    cases g.sup with
-    | inl h => exact absurd h hr
-    | inr h => exact h
+    rcases g.sup with h | h | h
+    · exact absurd h hex
+    · exact absurd h hr
+    · exact h
   have hPE : Pm (exec s) = Em (exec s) := eq_of_rweak_rsup g.weak hsup
   rw [a, subCallsOf_eq, subCallsOf_eq, queuedReqs_eq, pendingCalls_eq]
   simp only [netEffect, callsOf, List.filterMap_append, List.foldl_append]
@@ -122,8 +125,8 @@ theorem replay_invariant (s : Script) (hst : (exec s).stuck = false)
 /-- (B) CONVERGENCE, for every script (no hypothesis on Disconnect is needed) -/
 theorem converges' (s : Script) (hset : settled (exec s)) :
     toMap (exec s).broker.subs = netEffect (subCallsOf (exec s).accepted) := by
-  obtain ⟨ht, hq, hst, _⟩ := hset
-  have := replay_invariant s hst (by rw [ht]; simp)
+  obtain ⟨ht, hq, hst, k, hk, _⟩ := hset
+  have := replay_invariant s hst (by rw [hk]; simp) (by rw [ht]; simp)
   rw [this, ht, hq]
   rfl
 
@@ -136,12 +139,13 @@ theorem converges (s : Script) (_nd : NoDisconnect s) (hset : settled (exec s)) 
 /-- at a settled point the client's record, too, is the broker's table -/
 theorem settled_record_eq_broker (s : Script) (hset : settled (exec s)) :
     toMap (exec s).subEst = toMap (exec s).broker.subs := by
-  obtain ⟨ht, hq, hst, _⟩ := hset
+  obtain ⟨ht, hq, hst, k, hk, _⟩ := hset
   have g := (exec_all s).1 hst
   have hsup : RSup (Pm (exec s)) (Em (exec s)) := by
-    cases g.sup with
-    | inl h => rw [ht] at h; simp at h
-    | inr h => exact h
+    rcases g.sup with h | h | h
+    · rw [hk] at h; cases h
+    · rw [ht] at h; simp at h
+    · exact h
   have hPE : Pm (exec s) = Em (exec s) := eq_of_rweak_rsup g.weak hsup
   show Em (exec s) = _
   rw [← hPE]
@@ -158,18 +162,17 @@ theorem connackOk_step (w : World) (k : Nat) (sp : Bool) (inb : List (Nat × Nat
 
 theorem connackPre_taskQ (w : World) (k : Nat) (sp : Bool) (inb : List (Nat × Nat)) :
     (connackPre w k sp inb).taskQ =
-      w.taskQ ++ (if w.initialized = true ∧ (¬ sp = true ∨ w.cfg.always = true)
-        then [Task.resubscribe] else []) ++ [.retry] := by
-  obtain ⟨_, f2, _, _, _, _, f7, f8, _⟩ := cp3_fields w k sp inb
-  obtain ⟨_, _, _, _, _, p6, _⟩ := connackPre_fields w k sp inb
-  rw [p6, f2, f7, f8]
+      w.taskQ ++ (if w.initialized = true ∧ (¬ sp = true ∨ w.cfg.always = true) ∧ ¬ w.stopped = true
+        then [Task.resubscribe] else []) ++ (if w.stopped = true then [] else [.retry]) :=
+  connackPre_taskQ' w k sp inb
 
 /-- (C1) never on the first connection: at an accepted CONNACK of a client that has not been
-    connected before, the only task pushed is `Retry`; no `Resubscribe` is queued or run -/
+    connected before, the only task pushed is `Retry` (nothing at all after Disconnect); no
+    `Resubscribe` is queued or run -/
 theorem no_resubscribe_on_first_connection (w : World) (k : Nat) (sp : Bool)
     (inb : List (Nat × Nat)) (hph : w.phase = .connackGate k) (hi : w.initialized = false) :
     step w (.connackOk sp inb) = progress (connackPre w k sp inb) ∧
-      (connackPre w k sp inb).taskQ = w.taskQ ++ [.retry] ∧
+      (connackPre w k sp inb).taskQ = w.taskQ ++ (if w.stopped = true then [] else [.retry]) ∧
       (Task.resubscribe ∉ w.taskQ → Task.resubscribe ∉ (step w (.connackOk sp inb)).taskQ) := by
   refine ⟨step_connackOk w k sp inb hph, ?_, fun hn hm => ?_⟩
   · rw [connackPre_taskQ, if_neg (by simp [hi])]
@@ -229,10 +232,11 @@ theorem no_resubscribe_before_first_connack (s : Script) (h : (exec s).initializ
 theorem no_resubscribe_when_session_kept (w : World) (k : Nat) (inb : List (Nat × Nat))
     (hph : w.phase = .connackGate k) (ha : w.cfg.always = false) :
     step w (.connackOk true inb) = progress (connackPre w k true inb) ∧
-      (connackPre w k true inb).taskQ = w.taskQ ++ [.retry] ∧
+      (connackPre w k true inb).taskQ = w.taskQ ++ (if w.stopped = true then [] else [.retry]) ∧
       (connackPre w k true inb).broker.subs = w.broker.subs ∧
       (Task.resubscribe ∉ w.taskQ → Task.resubscribe ∉ (step w (.connackOk true inb)).taskQ) := by
-  have htq : (connackPre w k true inb).taskQ = w.taskQ ++ [.retry] := by
+  have htq : (connackPre w k true inb).taskQ =
+      w.taskQ ++ (if w.stopped = true then [] else [.retry]) := by
     rw [connackPre_taskQ, if_neg (by simp [ha])]
     simp
   refine ⟨step_connackOk w k true inb hph, htq, ?_, fun hn hm => ?_⟩
@@ -242,10 +246,10 @@ theorem no_resubscribe_when_session_kept (w : World) (k : Nat) (inb : List (Nat 
   · rw [step_connackOk w k true inb hph] at hm
     have := (progress_more _).2.subset hm
     rw [htq] at this
-    simp only [List.mem_append, List.mem_singleton] at this
+    simp only [List.mem_append] at this
     cases this with
     | inl h => exact hn h
-    | inr h => cases h
+    | inr h => split at h <;> simp at h
 
 /-- (C3) general form, for any world satisfying the invariants of `Proofs/RetrySubs` (every
     reachable world does, `exec_all`): at an accepted CONNACK of a client that was connected before,
@@ -255,7 +259,7 @@ theorem no_resubscribe_when_session_kept (w : World) (k : Nat) (inb : List (Nat 
     with its QoS or stands in the retry queue as a (re-)SUBSCRIBE entry carrying it -/
 theorem resubscribe_of_inv (w : World) (k : Nat) (sp : Bool) (inb : List (Nat × Nat))
     (hI : Inv w) (hK : InvK w) (hL : InvL w)
-    (hi : w.initialized = true) (hph : w.phase = .connackGate k)
+    (hi : w.initialized = true) (hph : w.phase = .connackGate k) (hstop : w.stopped = false)
     (hsp : sp = false ∨ w.cfg.always = true)
     (hns : (step w (.connackOk sp inb)).stuck = false) :
     Task.resubscribe ∈ (connackPre w k sp inb).taskQ ∧
@@ -267,17 +271,20 @@ theorem resubscribe_of_inv (w : World) (k : Nat) (sp : Bool) (inb : List (Nat ×
       ∃ l, (Entry.qSub l ∈ (step w (.connackOk sp inb)).retryQ ∨
             Entry.reSub l ∈ (step w (.connackOk sp inb)).retryQ) ∧ (⟨t, q⟩ : Subscription) ∈ l := by
   have hstep := step_connackOk w k sp inb hph
-  obtain ⟨f1, f2, f3, f4, f5, f6, f7, f8, f9, f10, f11, f12⟩ := cp3_fields w k sp inb
-  obtain ⟨p1, p2, p3, p4, p5, p6, p7, p8, p9, p10, p11, p12⟩ := connackPre_fields w k sp inb
+  obtain ⟨f1, f2, f3, f4, f5, f6, f7, f8, f9, f10, f11, f12, f13⟩ := cp3_fields w k sp inb
+  obtain ⟨p1, p2, p3, p4, p5, p6, p7, p8, p9, p10, p11, p12, p13⟩ := connackPre_fields w k sp inb
   obtain ⟨l1, l2, l3⟩ := hL k hph
-  have hcond : w.initialized = true ∧ (¬ sp = true ∨ w.cfg.always = true) := by
-    refine ⟨hi, ?_⟩
+  have hcond : w.initialized = true ∧ (¬ sp = true ∨ w.cfg.always = true) ∧ ¬ w.stopped = true := by
+    refine ⟨hi, ?_, by simp [hstop]⟩
     cases hsp with
     | inl h => left; simp [h]
     | inr h => exact Or.inr h
+  have hpreph : (connackPre w k sp inb).phase = .up k := by
+    rw [p12, f13, if_neg (by simp [hstop])]
+  have hprestop : (connackPre w k sp inb).stopped = false := by rw [p13, f13]; exact hstop
   have hpre : Task.resubscribe ∈ (connackPre w k sp inb).taskQ := by
     rw [connackPre_taskQ, if_pos hcond]; simp
-  have hIpre := connackPre_inv w k sp inb hI hK
+  have hIpre := connackPre_inv w k sp inb hph hI hK
   have hI' : Inv (step w (.connackOk sp inb)) := hstep ▸ progress_inv _ hIpre
   have g' := hI' hns
   have hws : w.stuck = false := by
@@ -307,9 +314,13 @@ theorem resubscribe_of_inv (w : World) (k : Nat) (sp : Bool) (inb : List (Nat ×
     rw [b]
     rfl
   · have hsup : RSup (Pm (step w (.connackOk sp inb))) (Em (step w (.connackOk sp inb))) := by
-      cases g'.sup with
-      | inl h => rw [htq] at h; simp at h
-      | inr h => exact h
+      rcases g'.sup with h | h | h
+      · rw [hstep] at h
+        cases progress_exited _ h with
+        | inl h1 => rw [hpreph] at h1; cases h1
+        | inr h1 => rw [hprestop] at h1; cases h1
+      · rw [htq] at h; simp at h
+      · exact h
     have hP := hsup t q hE
     cases fold_some_origin _ _ t q hP with
     | inl h => exact Or.inl h
@@ -320,6 +331,7 @@ theorem resubscribe_of_inv (w : World) (k : Nat) (sp : Bool) (inb : List (Nat ×
 /-- (C3) for reachable worlds: session lost (or AlwaysResubscribe with the session kept) -/
 theorem resubscribe_when_session_lost (s : Script) (k : Nat) (sp : Bool) (inb : List (Nat × Nat))
     (hi : (exec s).initialized = true) (hph : (exec s).phase = .connackGate k)
+    (hstop : (exec s).stopped = false)
     (hsp : sp = false ∨ (exec s).cfg.always = true)
     (hns : (step (exec s) (.connackOk sp inb)).stuck = false) :
     Task.resubscribe ∈ (connackPre (exec s) k sp inb).taskQ ∧
@@ -331,13 +343,14 @@ theorem resubscribe_when_session_lost (s : Script) (k : Nat) (sp : Bool) (inb : 
       ∃ l, (Entry.qSub l ∈ (step (exec s) (.connackOk sp inb)).retryQ ∨
             Entry.reSub l ∈ (step (exec s) (.connackOk sp inb)).retryQ) ∧
            (⟨t, q⟩ : Subscription) ∈ l :=
-  resubscribe_of_inv (exec s) k sp inb (exec_all s).1 (exec_all s).2.1 (exec_all s).2.2 hi hph hsp hns
+  resubscribe_of_inv (exec s) k sp inb (exec_all s).1 (exec_all s).2.1 (exec_all s).2.2 hi hph hstop hsp hns
 
 /-- (C3) in terms of the pre-state record, when no Subscribe / Unsubscribe request is waiting in
     the task queue: every filter of the pre-state `subEst` is afterwards subscribed at the broker
     with its QoS or represented by an entry of the retry queue -/
 theorem resubscribe_when_session_lost_pre (s : Script) (k : Nat) (sp : Bool) (inb : List (Nat × Nat))
     (hi : (exec s).initialized = true) (hph : (exec s).phase = .connackGate k)
+    (hstop : (exec s).stopped = false)
     (hsp : sp = false ∨ (exec s).cfg.always = true)
     (hq : subCallsOf (queuedReqs (exec s).taskQ) = [])
     (hns : (step (exec s) (.connackOk sp inb)).stuck = false) :
@@ -346,7 +359,7 @@ theorem resubscribe_when_session_lost_pre (s : Script) (k : Nat) (sp : Bool) (in
       ∃ l, (Entry.qSub l ∈ (step (exec s) (.connackOk sp inb)).retryQ ∨
             Entry.reSub l ∈ (step (exec s) (.connackOk sp inb)).retryQ) ∧ x ∈ l := by
   intro x hx
-  obtain ⟨_, _, h3, h4⟩ := resubscribe_when_session_lost s k sp inb hi hph hsp hns
+  obtain ⟨_, _, h3, h4⟩ := resubscribe_when_session_lost s k sp inb hi hph hstop hsp hns
   have hst : (exec s).stuck = false := by
     cases hxs : (exec s).stuck with
     | false => rfl
@@ -386,6 +399,89 @@ theorem record_has_nothing_unsubscribed (s : Script) (hst : (exec s).stuck = fal
   refine ⟨pr, ⟨_, a.symm⟩, fun t ht => ?_⟩
   rw [← b] at ht
   exact toMap_eq_none_iff.1 ht
+
+/-! ### Disconnect (refined model): `stopped`, `exited` -/
+
+/-- the reconnect loop exits only after Disconnect — for every script -/
+theorem exited_implies_stopped (s : Script) : (exec s).phase = .exited → (exec s).stopped = true := by
+  have gen : ∀ (evs : List Ev) (w : World), (w.phase = .exited → w.stopped = true) →
+      ((evs.foldl step w).phase = .exited → (evs.foldl step w).stopped = true) := by
+    intro evs
+    induction evs with
+    | nil => intro w h; exact h
+    | cons e rest ih => intro w h; exact ih _ ((step_stopped_exited w e).2 h)
+  exact gen s.evs (init s) (fun h => by cases h)
+
+theorem noDisconnect_not_stopped (s : Script) (nd : NoDisconnect s) : (exec s).stopped = false := by
+  have gen : ∀ (evs : List Ev) (w : World), evs.all (fun e => !isDisconnect e) = true →
+      w.stopped = false → (evs.foldl step w).stopped = false := by
+    intro evs
+    induction evs with
+    | nil => intro w _ h; exact h
+    | cons e rest ih =>
+      intro w hall h
+      simp only [List.all_cons, Bool.and_eq_true] at hall
+      apply ih _ hall.2
+      cases hx : (step w e).stopped with
+      | false => rfl
+      | true =>
+        cases (step_stopped_exited w e).1 hx with
+        | inl h1 => rw [h] at h1; cases h1
+        | inr h1 =>
+          have h2 := hall.1
+          cases e <;> simp [isDisconnect, evIsDisconnect] at h1 h2
+  exact gen s.evs (init s) nd rfl
+
+theorem noDisconnect_not_exited (s : Script) (nd : NoDisconnect s) : (exec s).phase ≠ .exited := by
+  intro h
+  have := exited_implies_stopped s h
+  rw [noDisconnect_not_stopped s nd] at this
+  cases this
+
+/-- (*) for runs without Disconnect, with no side condition on the phase -/
+theorem replay_invariant_nd (s : Script) (nd : NoDisconnect s) (hst : (exec s).stuck = false)
+    (hr : Task.resubscribe ∉ (exec s).taskQ) :
+    netEffect (subCallsOf (exec s).accepted) =
+      (subCallsOf (queuedReqs (exec s).taskQ)).foldl netStep
+        ((pendingCalls (exec s).retryQ).foldl netStep (toMap (exec s).broker.subs)) :=
+  replay_invariant s hst (noDisconnect_not_exited s nd) hr
+
+/-- (C3) for runs without Disconnect: no `stopped` hypothesis -/
+theorem resubscribe_when_session_lost_nd (s : Script) (nd : NoDisconnect s) (k : Nat) (sp : Bool)
+    (inb : List (Nat × Nat))
+    (hi : (exec s).initialized = true) (hph : (exec s).phase = .connackGate k)
+    (hsp : sp = false ∨ (exec s).cfg.always = true)
+    (hns : (step (exec s) (.connackOk sp inb)).stuck = false) :
+    Task.resubscribe ∈ (connackPre (exec s) k sp inb).taskQ ∧
+    (step (exec s) (.connackOk sp inb)).taskQ = [] ∧
+    ∀ t q, toMap (step (exec s) (.connackOk sp inb)).subEst t = some q →
+      toMap (step (exec s) (.connackOk sp inb)).broker.subs t = some q ∨
+      ∃ l, (Entry.qSub l ∈ (step (exec s) (.connackOk sp inb)).retryQ ∨
+            Entry.reSub l ∈ (step (exec s) (.connackOk sp inb)).retryQ) ∧
+           (⟨t, q⟩ : Subscription) ∈ l := by
+  obtain ⟨a, b, _, d⟩ := resubscribe_when_session_lost s k sp inb hi hph
+    (noDisconnect_not_stopped s nd) hsp hns
+  exact ⟨a, b, d⟩
+
+/-- after Disconnect (refined model) an accepted CONNACK pushes nothing: with the session lost the
+    broker's table is empty, nothing is re-subscribed, the loop exits — the replay equation (*) and
+    (C3) do not hold there (in the previous model `Resubscribe` was still pushed) -/
+def exitCex : Script :=
+  { evs := [.start, .dialOk 0, .connackOk false [], .app (.sub [⟨[97], 0⟩]), .peerClose, .dialOk 0,
+            .disconnect, .connackOk false []] }
+
+theorem replay_fails_after_exit :
+    (exec exitCex).stuck = false ∧ (exec exitCex).phase = .exited ∧ (exec exitCex).taskQ = [] ∧
+    (exec exitCex).retryQ = [] ∧ (exec exitCex).broker.subs = [] ∧
+    (exec exitCex).subEst = [⟨[97], 0⟩] ∧
+    netEffect (subCallsOf (exec exitCex).accepted) [97] = some 0 := by decide
+
+def exitCexPre : Script := { exitCex with evs := exitCex.evs.take 7 }
+
+theorem no_resubscribe_after_disconnect :
+    (exec exitCexPre).initialized = true ∧ (exec exitCexPre).phase = .connackGate 1 ∧
+    (exec exitCexPre).stopped = true ∧
+    (connackPre (exec exitCexPre) 1 false []).taskQ = [.disconnect] := by decide
 
 /-! ### non-vacuity: concrete runs (filters as byte lists: a = [97], b = [98], c = [99]) -/
 
